@@ -774,14 +774,27 @@ impl Sim {
                 self.fresh_world(si)?;
                 self.probes.hit("drop_world");
             }
-            Op::ResView { slot, site, salt } => {
+            Op::ResView { slot, site, salt, via } => {
                 let si = self.s(*slot);
                 let site = *site as usize % g::RESOURCE_VIEWS.len();
                 let views = g::RESOURCE_VIEWS[site];
                 let mut rec = Rec::new(None);
                 let w = self.slots[si].world.as_mut().unwrap();
-                if let Err(c) = sut(|| g::view_resources(w, site, *salt, &mut rec)) {
-                    return Err(unexpected(c, "World::view_resources", "C15"));
+                if *via == 0 {
+                    if let Err(c) = sut(|| g::view_resources(w, site, *salt, &mut rec)) {
+                        return Err(unexpected(c, "World::view_resources", "C15"));
+                    }
+                } else {
+                    // The same views as the resource views of a query, the way systems receive them.
+                    let n = match sut(|| g::query_resources(w, site, *via - 1, *salt, &mut rec)) {
+                        Ok(n) => n,
+                        Err(c) => return Err(unexpected(c, "World::query (resource views)", "C15")),
+                    };
+                    let want = self.slots[si].model.ents.len();
+                    if n != want && !self.slots[si].tainted {
+                        return Err(viol("C03", "query-results", format!("query with resource views (site {site}, via {via}) iterated {n} items, expected {want}")));
+                    }
+                    self.probes.hit("query_resource_views");
                 }
                 if let Some(e) = rec.err {
                     return Err(viol("C15", "resource-integrity", e));
